@@ -59,7 +59,8 @@ fn is_local_or_param(c: &SemCase, name: &str) -> bool {
 
 fn case(tape: &[u8], rec: &Rec) -> Verdict {
     let mut t = Tape::new(tape);
-    let c = gen_sem_case(&mut t, SemOpts { c09_domain: true, ..Default::default() });
+    let late = t.chance(70);
+    let c = gen_sem_case(&mut t, SemOpts { c09_domain: true, late_facts: late, ..Default::default() });
     let ssa = lift_ssa(&c)?;
     let reports = match run_passes(&ssa) {
         Ok(r) => r,
